@@ -126,6 +126,20 @@ class LogicConv2d(nn.Module):
         }[self.forward_sampling]
         return torch.stack([weighting_func(w) for w in self.tree_weights[level]], dim=0)
 
+    def _walsh_activation(self, x):
+        """Activation of a Walsh level: sampling-mode dependent in training, sign in eval."""
+        if not self.training:
+            return (x > 0).to(torch.float32)
+        if self.forward_sampling == "soft":
+            return soft_walsh(x, tau=self.temperature)
+        elif self.forward_sampling == "hard":
+            return hard_walsh(x, tau=self.temperature)
+        elif self.forward_sampling == "gumbel_soft":
+            return gumbel_sigmoid(x, tau=self.temperature, hard=False)
+        elif self.forward_sampling == "gumbel_hard":
+            return gumbel_sigmoid(x, tau=self.temperature, hard=True)
+        raise ValueError(self.forward_sampling)
+
     def forward(self, x):
         """Implement the binary tree using the pre-selected indices."""
         current_level = x
@@ -155,31 +169,15 @@ class LogicConv2d(nn.Module):
 
         elif self.parametrization == "walsh":
             level_weights = torch.stack([w for w in self.tree_weights[0]], dim=0)
-            current_level = bin_op_cnn_walsh(a, b, level_weights)
-            if self.training:
-                if self.forward_sampling == "soft":
-                    current_level = soft_walsh(current_level, tau=self.temperature)
-                elif self.forward_sampling == "hard":
-                    current_level = hard_walsh(current_level, tau=self.temperature)
-                elif self.forward_sampling == "gumbel_soft":
-                    current_level = gumbel_sigmoid(current_level, tau=self.temperature, hard=False)
-                elif self.forward_sampling == "gumbel_hard":
-                    current_level = gumbel_sigmoid(current_level, tau=self.temperature, hard=True)
-            else:
-                current_level = (current_level > 0).to(torch.float32)
+            current_level = self._walsh_activation(bin_op_cnn_walsh(a, b, level_weights))
 
             # Process remaining levels
             for level in range(1, self.tree_depth + 1):
                 left_indices, right_indices = self.indices[level]
                 a = current_level[..., left_indices]
                 b = current_level[..., right_indices]
-                # level_weights = self.tree_weights[level]
                 level_weights = torch.stack([w for w in self.tree_weights[level]], dim=0)
-                current_level = bin_op_cnn_walsh(a, b, level_weights)
-                if self.training:
-                    current_level = torch.sigmoid(current_level / self.temperature)
-                else:
-                    current_level = (current_level > 0).to(torch.float32)
+                current_level = self._walsh_activation(bin_op_cnn_walsh(a, b, level_weights))
 
         # Reshape flattened output
         reshape_h = (self.in_dim[0] + 2*self.padding - self.receptive_field_size) // self.stride + 1
